@@ -221,6 +221,11 @@ def run(ctx) -> None:
     check_m1(ctx)
     check_m2(ctx)
     check_m3(ctx)
+    from rules.c14 import check_q6
+    before = len(ctx.obligations)
+    check_q6(ctx)
+    for o in ctx.obligations[before:]:
+        o['rule'] = 'M2'
     ctx.undecided('statistical quality of numpy generators', 'OS process scheduling',
                   'samples lie in the support (property of numpy.random)')
     ctx.assume('np.random.seed() without argument reseeds from OS entropy (numpy documentation)',
